@@ -2,8 +2,8 @@
 import os
 import pmlib
 
-LEAN_MODULES = ["PomerolModel.Properties.C16"]
-GENERATED = []
+LEAN_MODULES = ["PomerolModel.Properties.C16", "PomerolModel.Model.DispatcherDedicated"]
+GENERATED = ["disp"]
 THEOREMS = [
     "Pomerol.Properties.C16.every_job_at_most_once",
     "Pomerol.Properties.C16.every_job_exactly_once_at_exit",
@@ -11,6 +11,9 @@ THEOREMS = [
     "Pomerol.Properties.C16.no_leaked_messages",
     "Pomerol.Properties.C16.no_deadlock",
     "Pomerol.Properties.C16.finitely_many_receptions",
+    # the loop conditions of MPIMaster::order / check_workers as generated from the source are the ones the models use
+    "Pomerol.Model.DispD.orderCondition_matches_orderLoop",
+    "Pomerol.Model.DispD.finishCondition_matches_finishPhase",
 ]
 RULE = ("a case = (ranks P, rounds with job-complexity lists, schedule seed, message-visibility probability); the real "
         "dispatcher sources run on a mock MPI under the seeded schedule; non-trivial = distinct case with at least "
@@ -56,24 +59,26 @@ def gen_case(ctx, big):
     return P, rounds, r.below(1 << 30), see
 
 
-def run_case(exe, P, rounds, seed, see, max_steps=None):
+def run_case(exe, P, rounds, seed, see, max_steps=None, nomaster=False):
     if max_steps is None:
         max_steps = 3000 + 60 * (P + 2) * (sum(len(c) for c in rounds) + 4 * len(rounds)) * see[1] // see[0]
     stdin = "\n".join(" ".join(map(str, c)) if c else "none" for c in rounds) + "\n"
-    rc, out, err = pmlib.run_harness(exe, [str(P), str(seed), str(max_steps), str(see[0]), str(see[1])], stdin,
-                                     timeout=300)
+    rc, out, err = pmlib.run_harness(exe, [str(P), str(seed), str(max_steps), str(see[0]), str(see[1])]
+                                     + (["nomaster"] if nomaster else []), stdin, timeout=300)
     return rc, out, err, stdin
 
 
-def check_output(ctx, P, rounds, seed, see, rc, out, err, stdin):
+def check_output(ctx, P, rounds, seed, see, rc, out, err, stdin, nomaster=False):
     case = dict(P=P, rounds=rounds, sched_seed=seed, see=list(see))
+    if nomaster:
+        case["nomaster"] = True
     san = pmlib.sanitizer_report(err)
     if rc != 0 or san:
         ctx.problem("sanitizer" if rc != -999 else "hang",
                     "dispatcher harness %s" % (san or ("timed out" if rc == -999 else "exit %d" % rc)),
                     case=case, log=err[-2000:], signature="disp-abort")
         return
-    rc2, dout = pmlib.run_driver("disp", "P %d\n%s" % (P, out))
+    rc2, dout = pmlib.run_driver("disp", "P %d\n%s%s" % (P, "mode nomaster\n" if nomaster else "", out))
     for l in dout.splitlines():
         if l.startswith("PROPFAIL"):
             ctx.problem("propfail", l, case=case, signature="disp-" + " ".join(l.split()[2:5]))
@@ -91,6 +96,8 @@ def check_output(ctx, P, rounds, seed, see, rc, out, err, stdin):
     unseen = sum(1 for l in out.splitlines() if l.startswith("t ") and l.endswith(" 0"))
     ctx.count("test_events", ntests)
     ctx.count("ranks_%d" % P)
+    if nomaster:
+        ctx.count("dedicated_master_runs")
     for c in rounds:
         ctx.count("jobs_0" if not c else ("jobs_lt_workers" if len(c) < P else "jobs_ge_workers"))
     if any(rounds) and unseen > 0:
@@ -117,6 +124,29 @@ def correspondence(ctx):
         if len(ctx.samples) < 6 and any(rounds):
             ctx.samples.append(dict(P=P, rounds=rounds, sched_seed=seed, see=list(see),
                                     first_events=out.splitlines()[:12]))
+        if sum(1 for p in ctx.problems if p["kind"] in ("propfail", "hang", "sanitizer")) >= 3:
+            break
+    # the dedicated-master pattern: rank 0 only drives `for (; !master.is_finished();) { order(); check_workers(); }`
+    # (include_boss = false), ranks 1..P-1 run the worker loop; a round = the list of job ids handed to MPIMaster
+    r = ctx.rng
+    dcases = []
+    for P in (2, 3, 4):
+        for J in (0, 1, 2, 4):
+            for see in ((1, 1), (1, 3)):
+                dcases.append((P, [list(range(J)), list(range(J - 1, -1, -1))], P * 131 + J * 17 + see[1], see))
+    for _ in range(30 if not big else 600):
+        P = r.choice([2, 2, 3, 3, 4, 5] if not big else [2, 3, 4, 5, 8, 16])
+        rounds = []
+        for _ in range(r.range(1, 3)):
+            J = r.choice([0, 0, 1, r.range(1, max(1, P - 2)), r.range(1, 9 if not big else 30)])
+            ids = list(range(J)) if r.chance(1, 2) else [3 * j + 1 for j in range(J)]      # job ids need not be 0..J-1
+            r.shuffle(ids)
+            rounds.append(ids)
+        dcases.append((P, rounds, r.below(1 << 30), r.choice([(1, 1), (3, 4), (1, 2), (1, 5)])))
+    for (P, rounds, seed, see) in dcases:
+        rc, out, err, stdin = run_case(exe, P, rounds, seed, see, nomaster=True)
+        ctx.evaluations += 1
+        check_output(ctx, P, rounds, seed, see, rc, out, err, stdin, nomaster=True)
         if sum(1 for p in ctx.problems if p["kind"] in ("propfail", "hang", "sanitizer")) >= 3:
             break
     real_mpi(ctx, big)
@@ -202,8 +232,9 @@ def replay(ctx, rp):
                 print("rank", k, open(fn).read() if os.path.exists(fn) else "(no output)")
         return 1 if rc != 0 else 0
     exe = harness()
-    rc, out, err, stdin = run_case(exe, c["P"], c["rounds"], c["sched_seed"], tuple(c["see"]))
+    nm = bool(c.get("nomaster"))
+    rc, out, err, stdin = run_case(exe, c["P"], c["rounds"], c["sched_seed"], tuple(c["see"]), nomaster=nm)
     print(out[-3000:])
-    rc2, dout = pmlib.run_driver("disp", "P %d\n%s" % (c["P"], out))
+    rc2, dout = pmlib.run_driver("disp", "P %d\n%s%s" % (c["P"], "mode nomaster\n" if nm else "", out))
     print(dout)
     return 1 if ("PROPFAIL" in dout or "MISMATCH" in dout or rc != 0) else 0
